@@ -185,7 +185,7 @@ int main(int argc, char** argv) {
     R.rule = "kick: one evaluation = one particle position x offset pair through the real applyTo (plus apply on a two-row blob in the interior); fp: one evaluation = one lattice of particles followed for many steps; "
              "distinct = FNV of case + resulting coordinates; trivial = zero offsets / tracking model none";
     R.sample_every = 20000;
-    const bool T = R.thorough();
+    const bool T = true /* the wide lattices run in both tiers */; const bool D = R.thorough(); (void)D;
     part_kick(T ? std::vector<unsigned>{12, 16, 17, 24} : std::vector<unsigned>{12, 13});
     part_fp(T ? std::vector<unsigned>{12, 16, 17, 32, 33, 48} : std::vector<unsigned>{12, 13, 32}, T ? 32 : 4, T ? 400 : 200);
     part_chain(T ? std::vector<unsigned>{16, 17, 32} : std::vector<unsigned>{16, 17}, T ? 12 : 6);
